@@ -266,7 +266,11 @@ func (d *Decoder) Write(p []byte) (n int, err error) {
 			// reading code earlier should already catch
 			// overlong things and return ErrStringLength,
 			// but keep this as a last resort.
-			const varIntOverhead = 8 // conservative
+			// The longest incomplete representation is a literal
+			// field with a literal name: one octet, then two
+			// strings of at most maxStrLen octets, each prefixed
+			// by a length varint of at most 10 octets.
+			const varIntOverhead = 11
 			if d.maxStrLen != 0 && int64(len(d.buf)) > 2*(int64(d.maxStrLen)+varIntOverhead) {
 				return 0, ErrStringLength
 			}
